@@ -501,6 +501,8 @@ class C10(Cfg):
         return "STATS:parts=%s:%s" % (t[2], ans.split(" ", 1)[0])
 
     def spec_ok(self, req, ans, spec):
+        if spec == "na":   # the parts are not cut at message boundaries of this (malformed) stream
+            return True
         return re.sub(r" n=\d+$", "", spec) == ans
 
 
